@@ -14,7 +14,9 @@ import (
 	"errors"
 	"fmt"
 	"math/big"
+	mrand "math/rand"
 	"strings"
+	"sync"
 	"testing"
 	"time"
 
@@ -78,7 +80,7 @@ type c30Call struct {
 
 func TestC30(t *testing.T) {
 	rec := ev.New(t, "C30")
-	rec.Rule("three parts. (rpc) rapid-generated sequences of 1..4 GetCertificate/Sign calls on a fresh Server: caller {client bound to the hostname, the other client, no certificate}, hostname {bound to A, bound to B, the same with whitespace, unbound, under the apex, bare}, proof {valid at production difficulty, nine invalid kinds}, algo {0..3 and out-of-enum}, digest length 0..70 biased to hash sizes ±1, RSA-2048 / ECDSA P-256 / P-384 certificates, provider ok / error / empty. (ttl) computeKeylessTTL on certificates whose NotAfter lies -1h..+1h around now, biased to the skew and 5 min boundaries, as Leaf, as DER only, undecodable, empty, nil. (loader) the real keylessCertLoader with such certificates. Non-trivial: rpc - caller is not the bound client or the digest length is wrong; ttl/loader - expiry minus skew is less than 5 min away. Distinct = generated tuple.")
+	rec.Rule("three parts. (rpc) rapid-generated sequences of 1..4 GetCertificate/Sign calls on a fresh Server: caller {client bound to the hostname, the other client, no certificate}, hostname {bound to A, bound to B, the same with whitespace, unbound, under the apex, bare}, proof {valid at production difficulty, nine invalid kinds}, algo {0..3 and out-of-enum}, digest length 0..70 biased to hash sizes ±1, RSA-2048 / ECDSA P-256 / P-384 certificates, provider ok / error / empty. (ttl) computeKeylessTTL on certificates whose NotAfter lies -1h..+1h around now, biased to the skew and 5 min boundaries, as Leaf, as DER only, undecodable, empty, nil. (loader) the real keylessCertLoader with such certificates. (slow-provider) the real loader behind a certificate provider that takes a generated 150-400 ms, certificates whose expiry minus skew is 2 s..4 min away, run in parallel; the TTL must not exceed what was left when the provider returned (one-sided: the loader reads its clock after that instant), 25 ms tolerance. Non-trivial: rpc - caller is not the bound client or the digest length is wrong; ttl/loader - expiry minus skew is less than 5 min away. Distinct = generated tuple.")
 	rec.Assume("safety skew = the package constant (must be positive); an already (nearly) expired certificate may be kept for at most one second (DESIGN: ttl <= max(1s, NotAfter - skew - now))",
 		"for plainly spelled bound hostnames, a valid request from the bound client must succeed (⇔, DESIGN); 'valid proof' is subject to wall-clock expiry and discarded (inconclusive) when it did not outlive the call")
 
@@ -126,7 +128,7 @@ func TestC30(t *testing.T) {
 		if !strings.HasSuffix(p, ".fail") {
 			return true
 		}
-		for _, n := range []string{"rpc", "ttl", "loader"} {
+		for _, n := range []string{"rpc", "ttl", "loader", "slow-provider"} {
 			if strings.Contains(p, "TestC30_"+n) || strings.Contains(p, "TestC30/"+n) {
 				return n == name
 			}
@@ -397,5 +399,87 @@ func TestC30(t *testing.T) {
 			// the loader's own clock reading is >= t0, so its bound is at most the one computed from t0
 			checkTTL(t, "keylessCertLoader", form, res.TTL, true, notAfter, t0, doc)
 		})
+	})
+	// ---------------- part 4: the loader behind a slow certificate provider.
+	// The TTL handed to the cache counts from the moment the loader returns, so
+	// it must be computed from a clock reading taken after the provider answered.
+	t.Run("slow-provider", func(t *testing.T) {
+		if !runPart("slow-provider") {
+			return
+		}
+		const tolerance = 25 * time.Millisecond
+		n := ev.N(16, 256)
+		rng := mrand.New(mrand.NewSource(ev.ShardSeed()))
+		type slowCase struct {
+			delay  time.Duration
+			off    time.Duration // NotAfter - t0
+			form   string
+			hostNo int
+			// results
+			ttl        time.Duration
+			notAfter   time.Time
+			returnedAt time.Time
+			err        string
+		}
+		cases := make([]*slowCase, n)
+		for i := range cases {
+			c := &slowCase{delay: 150*time.Millisecond + time.Duration(rng.Int63n(int64(250*time.Millisecond))), form: []string{"leaf-and-der", "der-only"}[rng.Intn(2)], hostNo: i}
+			// remaining validity near the skew: expiry-minus-skew 2 s .. 4 min away (below the 5 min base TTL, above the 1 s floor)
+			switch rng.Intn(3) {
+			case 0:
+				c.off = skew + 3*time.Second + time.Duration(rng.Int63n(int64(8*time.Second)))
+			case 1:
+				c.off = skew + 10*time.Second + time.Duration(rng.Int63n(int64(50*time.Second)))
+			default:
+				c.off = skew + time.Minute + time.Duration(rng.Int63n(int64(3*time.Minute)))
+			}
+			cases[i] = c
+		}
+		var wg sync.WaitGroup
+		sem := make(chan struct{}, 16)
+		for _, c := range cases {
+			wg.Add(1)
+			sem <- struct{}{}
+			go func(c *slowCase) {
+				defer wg.Done()
+				defer func() { <-sem }()
+				fx := newFixture(selfT, selfC)
+				defer fx.close()
+				cert := selfSigned(t, hostA, edKey, time.Now().Add(c.off))
+				c.notAfter = cert.Leaf.NotAfter
+				if c.form == "der-only" {
+					cert.Leaf = nil
+				}
+				fx.certs.certs[hostA] = cert
+				fx.certs.delay = c.delay
+				res := fx.srv.VerifKeylessCertLoader(A.delegationCtx(context.Background(), nil), hostA)
+				fx.certs.mu.Lock()
+				c.returnedAt = fx.certs.returnedAt
+				fx.certs.mu.Unlock()
+				c.ttl = res.TTL
+				if res.LoadErr != nil || res.Err != nil || res.Cert == nil {
+					c.err = fmt.Sprintf("%v / %v", res.LoadErr, res.Err)
+				}
+			}(c)
+		}
+		wg.Wait()
+		for _, c := range cases {
+			bound := c.notAfter.Add(-skew).Sub(c.returnedAt) // what is left when the provider answered
+			doc := map[string]any{"part": "slow-provider", "form": c.form, "provider_delay": c.delay.String(), "ttl": c.ttl.String(),
+				"expiry_minus_skew_when_provider_returned": bound.String(), "kept_past_expiry_minus_skew_by": (c.ttl - bound).String(), "error": c.err}
+			rec.Case(bound < maxTTL, fmt.Sprintf("slow:%s:%d:%d", c.form, int64(c.delay), int64(c.off)), func() any { return doc }, "part:slow-provider", "form:"+c.form)
+			if c.err != "" {
+				rec.Fail(t, "keyless-loader-failed", doc, "loader failed behind a slow provider: %s", c.err)
+			}
+			if bound < time.Second {
+				bound = time.Second
+			}
+			if bound > maxTTL {
+				bound = maxTTL
+			}
+			if c.ttl > bound+tolerance {
+				rec.Fail(t, "certificate-cached-past-expiry-minus-skew", doc, "provider took %v; the loader's ttl %v exceeds what was left until expiry - skew when the provider returned (%v) by %v", c.delay, c.ttl, bound, c.ttl-bound)
+			}
+		}
 	})
 }
